@@ -18,7 +18,7 @@ import (
 //	fsrun <ue_number> <r> <p> <s> <rel> <d> <kind> <k> <seed>
 //
 // r,p,s,rel,d = ue_registration, ue_pdu, ue_service, ue_pdu_release, ue_deregistration; kind ∈ none | close | garbage |
-// trunc | other (k = downlink index, 0 = NG Setup Response) | closeul (k = uplink index after which the peer closes).
+// trunc | other | silent (k = downlink index, 0 = NG Setup Response) | closeul (k = uplink index after which the peer closes).
 // Result: the peer's canonical text (exit status, bucketed time, banner, ManageError text, test headers, message
 // counts, the sequence of uplink message types). A run takes ≈ 8 s per UE because of the program's own sleeps; the
 // generator runs 16 at a time.
@@ -96,7 +96,7 @@ func opFsrun(a []string) string {
 	switch a[6] {
 	case peer.FaultNone:
 		f.K = -1
-	case peer.FaultClose, peer.FaultGarbage, peer.FaultTrunc, peer.FaultOther, peer.FaultCloseUL:
+	case peer.FaultClose, peer.FaultGarbage, peer.FaultTrunc, peer.FaultOther, peer.FaultCloseUL, peer.FaultSilent:
 		if k < 0 {
 			panic(badArg{})
 		}
@@ -192,6 +192,8 @@ func failstopDomain(e *emitter) {
 		add(1, [5]int{1, 0, 1, 1, 1}, peer.FaultNone, 0, e.seed+1)
 		add(2, [5]int{2, 1, 2, 0, 3}, peer.FaultGarbage, 5, 0)
 		add(2, [5]int{2, 1, 2, 0, 3}, peer.FaultClose, 9, e.seed+2)
+		// outside the fault model: a peer that neither answers nor closes (the run is killed after 8 idle seconds)
+		add(1, [5]int{1, 1, 1, 1, 1}, peer.FaultSilent, 3, 0)
 	} else {
 		sweep(3, [5]int{3, 3, 3, 3, 3}, e.seed, []string{peer.FaultClose, peer.FaultGarbage, peer.FaultTrunc, peer.FaultOther}, 1)
 		// repetition counts above the UE count, zero and negative counts
@@ -202,6 +204,8 @@ func failstopDomain(e *emitter) {
 		add(0, [5]int{0, 3, 3, 3, 3}, peer.FaultNone, 0, e.seed+4)
 		add(0, [5]int{0, 3, 3, 3, 3}, peer.FaultClose, 0, e.seed+4)
 		add(0, [5]int{0, 3, 3, 3, 3}, peer.FaultGarbage, 0, e.seed+4)
+		add(1, [5]int{1, 1, 1, 1, 1}, peer.FaultSilent, 0, 0)
+		add(2, [5]int{2, 2, 2, 2, 2}, peer.FaultSilent, 12, e.seed+5)
 		// random single faults over random small configurations
 		for i := 0; i < e.n; i++ {
 			var c [5]int
